@@ -94,6 +94,11 @@ TermOKAt(t, lvl) ==
   \/ lvl = 0 /\ t.op \in {"max", "min"} /\ t.f \in Lesses
   \/ lvl = 0 /\ t.op \in {"any", "all", "none"} /\ t.f \in Preds
 
+\* Sort / Reverse / Merge / Group read their whole input inside the constructor call (the
+\* method itself blocks, the rest of the chain is not built until the input is closed); the
+\* API does not promise either way, so the law only RELAXES its at-rest demands behind them
+Blocking == {"sort", "reverse", "merge", "group"}
+
 \* Head(n<1), Tail(n<1), Split(n<1), Skip(n<0) panic in the constructor (TestHeadZero, ...)
 PanicsOn(o) == (o.op \in {"head", "tail", "split"} /\ o.n < 1) \/ (o.op = "skip" /\ o.n < 0)
 
@@ -173,12 +178,11 @@ FullRel(o, in, out) ==
     [] o.op = "reverse" -> m = n /\ \A j \in 1..m : out[j] = in[n + 1 - j]
     [] o.op = "distinct" ->
          \* a subsequence of the input, one item per key, each the first of its key
-         /\ \A i, j \in 1..m : i # j => KeyF(o.f, Val(out[i])) # KeyF(o.f, Val(out[j]))
-         /\ {KeyF(o.f, Val(out[j])) : j \in 1..m} = {KeyF(o.f, Val(in[j])) : j \in 1..n}
-         /\ \E pos \in [1..m -> 1..n] :
-              /\ \A j \in 1..m : in[pos[j]] = out[j]
-                    /\ \A i \in 1..(pos[j]-1) : KeyF(o.f, Val(in[i])) # KeyF(o.f, Val(out[j]))
-              /\ \A i, j \in 1..m : i < j => pos[i] < pos[j]
+         LET FirstPos(x) == CHOOSE p \in 1..n : /\ KeyF(o.f, Val(in[p])) = KeyF(o.f, Val(x))
+                                                /\ \A q \in 1..(p-1) : KeyF(o.f, Val(in[q])) # KeyF(o.f, Val(x))
+         IN /\ {KeyF(o.f, Val(out[j])) : j \in 1..m} = {KeyF(o.f, Val(in[j])) : j \in 1..n}
+            /\ \A j \in 1..m : in[FirstPos(out[j])] = out[j]
+            /\ \A i, j \in 1..m : i < j => FirstPos(out[i]) < FirstPos(out[j])
     [] o.op = "split" ->
          /\ \A j \in 1..m : out[j].t = 1 /\ Len(out[j].v) \in 1..o.n
          /\ \A j \in 1..(m-1) : Len(out[j].v) = o.n
